@@ -138,6 +138,19 @@ impl<'a> Interp<'a> {
         }
     }
 
+    /// Would evaluating the place (with the state as it is now) fail? (state is restored)
+    fn probe_place_panic(&mut self, var: &str, accs: &[Acc], span: Span) -> Option<Panic> {
+        let saved = self.scopes.clone();
+        let steps = self.steps;
+        let r = self.eval_place(var, accs, span);
+        self.scopes = saved;
+        self.steps = steps;
+        match r {
+            Err(Stop::Panic(p)) => Some(p),
+            _ => None,
+        }
+    }
+
     fn stmt(&mut self, s: &Stmt) -> R<()> {
         self.tick()?;
         match &s.kind {
@@ -157,6 +170,36 @@ impl<'a> Interp<'a> {
                 // Garble's documented lowering: place (index expressions + bounds checks) first,
                 // then the value; Rust: value first. If both fail either is acceptable.
                 let span = s.span.get();
+                if op.is_none() {
+                    // plain assignment: the value is evaluated before the place (as in Rust, and as
+                    // the lowering does since fix "value before place"); if both fail, either
+                    // failure is acceptable
+                    let rhs = match self.expr(value) {
+                        Ok(v) => v,
+                        Err(Stop::Panic(mut p)) => {
+                            if let Some(pp) = self.probe_place_panic(var, accs, span) {
+                                for a in pp.alts {
+                                    if !p.alts.contains(&a) {
+                                        p.alts.push(a);
+                                    }
+                                }
+                            }
+                            return Err(Stop::Panic(p));
+                        }
+                        Err(e) => return Err(e),
+                    };
+                    let path = self.eval_place(var, accs, span)?;
+                    let slot = self.lookup_mut(var);
+                    let mut cur: &mut Val = slot;
+                    for k in &path {
+                        cur = match cur {
+                            Val::Array(v) | Val::Tuple(v) | Val::Struct(v) => &mut v[*k],
+                            _ => panic!("harness: path into non-collection"),
+                        };
+                    }
+                    *cur = rhs;
+                    return Ok(());
+                }
                 let place = self.eval_place(var, accs, span);
                 let path = match place {
                     Ok(p) => p,
